@@ -113,10 +113,10 @@ def run_profile(ctx, gen, n, config='default', claims=None, extra_oracle=None, t
         out = impl[h] or []
         if len(out) != len(scr):
             hits.append((h, len(out), f'driver stopped after {len(out)} of {len(scr)} operations (crash or hang)', None)); continue
-        pred = spec.predict(scr)
+        pred = spec.predict_adaptive(scr, [o.split('|')[0] for o in out])
         for ln, (a, b) in enumerate(zip(pred, out)):
             got = b.split('|')[0]
-            if a != got:
+            if a != got and a != 'ANY':
                 if claims is None or claims(scr[ln].split(' ')[0], a, got):
                     hits.append((h, ln, f'{" ".join(hist.pretty([scr[ln]]))}: expected {a} by the name-level semantics, implementation returned {got}', (a, got)))
                     break
@@ -128,6 +128,7 @@ def run_profile(ctx, gen, n, config='default', claims=None, extra_oracle=None, t
                 # leaves the key as it was, and what the (now different) key opens afterwards is still judged by the key's policy
                 if got == 'OK' and a == 'ERR' and scr[ln].split(' ')[0] == 'RF': continue
                 if scr[ln].split(' ')[0] == 'AP': continue       # a pure observation (policy -> rights): changes no state
+                if scr[ln].split(' ')[0] == 'EN' and a == 'ERR' and got == 'OK': continue      # entered as a forced encapsulation (spec.predict_adaptive)
                 break
         for (ln, prop, what) in hist.generic_oracles(scr, out):
             if prop == ctx.prop: hits.append((h, ln, what, None))
@@ -147,13 +148,14 @@ def run_profile(ctx, gen, n, config='default', claims=None, extra_oracle=None, t
             out = vf.run_lines(vf.harness_bin('kdriver', config), c, timeout=120)[0]
             if len(out) != len(c): return 'stopped' in what
             if 'expected' in what:
-                for ln2, (a2, b2) in enumerate(zip(spec.predict(c), out)):
+                for ln2, (a2, b2) in enumerate(zip(spec.predict_adaptive(c, [o.split('|')[0] for o in out]), out)):
                     g2 = b2.split('|')[0]
-                    if a2 != g2:
+                    if a2 != g2 and a2 != 'ANY':
                         if claims is None or claims(c[ln2].split(' ')[0], a2, g2): return True
                         if g2 == 'RTFAIL' and a2 == 'OK': continue
                         if g2 == 'OK' and a2 == 'ERR' and c[ln2].split(' ')[0] == 'RF': continue
                         if c[ln2].split(' ')[0] == 'AP': continue
+                        if c[ln2].split(' ')[0] == 'EN' and a2 == 'ERR' and g2 == 'OK': continue
                         break
             gv = [w for (_, p, w) in hist.generic_oracles(c, out) if p == ctx.prop]
             if gv and 'expected' not in what: return True
@@ -257,10 +259,10 @@ def replay(ctx, path):
     scr = rep['script']
     out = vf.run_lines(vf.harness_bin('kdriver', cfg), scr, timeout=300)[0]
     mo = vf.run_lines(vf.OCAML + '/kdriver', scr, args=['fixed'], timeout=300)[0]
-    pred = spec.predict(scr)
+    pred = spec.predict_adaptive(scr, [o.split('|')[0] for o in out])
     bad = 0
     for l, a, b, c in zip(hist.pretty(scr), out, mo, pred):
-        flag = '' if a.split('|')[0] == c else '   <-- deviates from the name-level semantics'
+        flag = '' if a.split('|')[0] == c or c == 'ANY' else '   <-- deviates from the name-level semantics'
         if flag: bad = 1
         print(f'{l:40s} impl={a.split("|")[0]:6s} model={b.split("|")[0]:6s} spec={c}{flag}')
     gv = hist.generic_oracles(scr, out)
